@@ -57,7 +57,7 @@ REGISTRY = {
                       "parse_args is stubbed in the arm harnesses (its decoding is (b)); the concretizing visitor re-stores an "
                       "asserted-equal Condition. The loops of parse_spends/parse_conditions that sequence the verified steps, lists "
                       "longer than the bounds and the 1024-announcement countdown are outside the claim.",
-        "quick": ["c01_", "arm_ann_", "arm_self_", "arm_msg_"],
+        "quick": ["c01_", "arm_ann_", "arm_self_"],
         "thorough": ["c01t_", "arm_"],
         "min_quick": 60,
         "min_thorough": 120,
@@ -212,5 +212,34 @@ REGISTRY = {
         "outside": ["pairing validity, signature/key tampering detection, cache transparency (blst FFI, C15)",
                     "validate_clvm_and_signature's pairing path (needs run_program)"],
         "assumptions": ["kh/src/c05.rs::spec_final_message is the table of coin attributes and domain constants per opcode"],
+    },
+    "C19": {
+        "level_text": "Bounded proof (Kani/CBMC) of the flag and fingerprint half: MempoolVisitor::new_spend / condition (every condition "
+                      "kind, any prior flags, any counter) / post_spend (0..2 created coins, 128-bit sum) clear exactly the documented "
+                      "eligibility flags, so a dedup-eligible spend has no signature or message condition and creates at least as much "
+                      "value as it consumes; compute_puzzle_fingerprint hashes an injective encoding (u32 length prefix per atom, fixed "
+                      "arity per opcode, hint-or-empty) of exactly what the real parse_args reports, and refuses signature/message "
+                      "conditions.",
+        "level_note": "fast_forward_singleton ('runs successfully against the new coin') executes CLVM and is outside (needs run_program). "
+                      "The SHA recorder (S3) makes the fingerprint's byte stream observable; collision resistance is not used.",
+        "quick": ["c19_"],
+        "thorough": ["c19t_"],
+        "min_quick": 9,
+        "min_thorough": 12,
+        "timeout_quick": 900,
+        "timeout_thorough": 1800,
+        "functions": [
+            "chia_consensus::conditions::MempoolVisitor::{new_spend,condition,post_spend}",
+            "chia_consensus::puzzle_fingerprint::{compute_puzzle_fingerprint,hash_atom_list}",
+            "chia_consensus::conditions::parse_args (CREATE_COIN hint rule, cross-checked)",
+        ],
+        "bounds": {"condition kinds": "all 36 variants, payloads symbolic", "flags/counter": "u32 / i32 symbolic",
+                   "outputs": "0..2 created coins (3 ran out of memory), amounts symbolic u64",
+                   "fingerprint": "one condition per list; CREATE_COIN with memo absent / atom / list whose first element is an atom of "
+                                  "0,1,32,33 bytes or a pair; amount atom 2 bytes (quick), 0 and 8 (thorough); one-argument opcodes 61,73,80"},
+        "stubs": [S1, S2, S3, "H1 shim", "H3 MempoolVisitor::verif_with_counter"],
+        "outside": ["fast_forward_singleton (CLVM execution)", "MempoolVisitor::post_process (ephemeral FF spends; needs coin ids of outputs)",
+                    "lists with several conditions (the encoding is per condition and concatenated)"],
+        "assumptions": [],
     },
 }
